@@ -13,7 +13,7 @@ LEVEL_TEXT = ("Grid of idle_timeout / D and idle_timeout / T ratios in {0.1 .. 1
 LEVEL_NOTE = "In-process stack with SQLite persistence; restart = emulated process death (fresh runtime + server over the same file). Trusted: virtual clock, shims."
 DESIGN_REF = "§5 C14"
 RULE = "case = (timer kind, D or T, idle_timeout, restart instant); distinct = hash of the scenario; non-trivial = a release or restart happened while the timer was pending"
-REQUIRED_REACH = ["scenario", "timer_waiter_timeout", "timer_retry_delay", "released_while_timer_pending", "restart_while_timer_pending", "finished", "timer_waiter_chain", "timer_timeout_then_restart", "timer_fired_timeout_then_reload"]
+REQUIRED_REACH = ["scenario", "timer_waiter_timeout", "timer_retry_delay", "released_while_timer_pending", "restart_while_timer_pending", "finished", "timer_waiter_chain", "timer_timeout_then_restart", "timer_fired_timeout_then_reload", "timer_shorter_than_a_store_write"]
 ASSUMPTIONS = []
 
 
@@ -27,8 +27,21 @@ def gen_case(seed):
     from vf import idle_cases as ic
 
     rnd = random.Random(seed)
-    kind = rnd.choice(["waiter_timeout", "retry_delay", "waiter_chain", "timeout_then_restart", "fired_timeout_then_reload"])
+    kind = rnd.choice(["waiter_timeout", "retry_delay", "waiter_chain", "timeout_then_restart", "fired_timeout_then_reload", "short_timer_slow_store"])
     dur = rnd.choice([2.0, 5.0, 10.0])
+    if kind == "short_timer_slow_store":
+        # a timer shorter than one store write (or zero): it falls due while the control loop is still busy persisting the tick that
+        # armed it / marking the run idle.  No release, no restart: the timer simply has to take effect
+        which = rnd.choice(["waiter_timeout", "retry_delay"])
+        dur = rnd.choice([0, 0.02, 0.05, 0.15])
+        if which == "waiter_timeout":
+            spec, keys = ic.gen_program(rnd, n=rnd.randint(1, 2), waiter_timeout=dur)
+        else:
+            dur = dur or 0.02
+            spec, keys = ic.gen_program(rnd, n=1, retry_delay=dur)
+        spec["sched_seed"] = seed
+        return {"seed": seed, "kind": which, "variant": "short_timer_slow_store", "dur": dur, "I": 1000.0, "spec": spec, "keys": keys, "restart": None, "restart_frac": 0.5,
+                "store_latency": rnd.choice([0.1, 0.1, 0.03]), "late_event": rnd.random() < 0.5}
     ratio = rnd.choice([0.1, 0.25, 0.5, 2.0, 10.0])
     if kind == "fired_timeout_then_reload":
         # the waiter timeout FIRES in memory and the same invocation goes on to wait for the human; the run is then released for
@@ -76,7 +89,7 @@ def run_one(case, acc):
     sends = []
     if kind == "retry_delay":
         # the human answers at once; the only pending thing is the delayed retry of the flaky step
-        sends = [{"at": 1.5, "pay": {"key": k}} for k in case["keys"]]
+        sends = [{"at": 1.5 if not case.get("store_latency") else 8.0, "pay": {"key": k}} for k in case["keys"]]   # (after the wait is registered, also on a slow store)
     if kind == "waiter_chain" and case.get("answer_first"):
         # the first wait is answered (not timed out) a little before its timeout
         sends = [{"at": 1.0 + dur * 0.75, "pay": {"key": k}} for k in case["keys"]]
@@ -91,7 +104,10 @@ def run_one(case, acc):
     if case["restart"] == "during":
         t0 = 1.0 if kind == "waiter_timeout" else 0.25
         restarts = [t0 + 0.5 + dur * case["restart_frac"] * 0.5]
-    scn = {"spec": case["spec"], "idle_timeout": I, "sends": sends, "restarts": restarts, "store": "sqlite", "end": 100.0 + 6 * dur}
+    if case.get("variant") == "short_timer_slow_store":
+        acc.hit("timer_shorter_than_a_store_write")
+    scn = {"spec": case["spec"], "idle_timeout": I, "sends": sends, "restarts": restarts, "store": "sqlite", "end": 100.0 + 6 * dur,
+           "store_latency": case.get("store_latency")}
     obs, cs = ic.run_scenario(scn)
     acc.case()
     acc.hit("scenario")
@@ -112,7 +128,8 @@ def run_one(case, acc):
         acc.hit("finished")
     else:
         lost_on = "restart" if restarts else ("idle_release" if pending_release else "none")
-        acc.violation({"mech": "run_stays_running_timer_lost", "timer": kind, "lost_on": lost_on, "idle_timeout_shorter_than_timer": I < dur},
+        acc.violation({"mech": "run_stays_running_timer_lost", "timer": kind, "lost_on": lost_on, "idle_timeout_shorter_than_timer": I < dur,
+                       **({"variant": case["variant"]} if case.get("variant") else {})},
                       f"{kind}={dur}s, idle_timeout={I}s, restarts={restarts}: the timer never took effect; handler after {scn['end']} virtual s is {final}; "
                       f"releases {[(r['t'], r.get('wakeups')) for r in obs['releases']]}", wit)
     acc.sample({"seed": case["seed"], "kind": kind, "dur": dur, "idle_timeout": I, "restarts": restarts, "releases": [r["t"] for r in obs["releases"]], "final": final})
